@@ -1,0 +1,16 @@
+//go:build verif
+
+package accounts
+
+import "github.com/MinterTeam/minter-go-node/coreV2/types"
+
+// VerifLoaded lists every address held in the in-memory cache (loaded or dirty).
+func (a *Accounts) VerifLoaded() []types.Address {
+	a.lock.RLock()
+	defer a.lock.RUnlock()
+	res := make([]types.Address, 0, len(a.list))
+	for k := range a.list {
+		res = append(res, k)
+	}
+	return res
+}
